@@ -26,15 +26,17 @@ def run(ctx):
     if not b:
         return
     tr = ctx.scratch.path("c07.ndjson")
-    rc, out = ctx.run(b, [tr, "events", tab, ctx.tier])
-    if rc != 0:
-        raise vlib.Infra("c07 harness failed: " + out[-2000:])
+    ok, out = ctx.run_harness(b, [tr, "events", tab, ctx.tier], tr)
+    if not ok:
+        return
     ctx.validate(TRACE_MODULE, tr, label="events")
     # E5: complete sweep of float -> half against the TLC-derived table; rejected inputs are re-judged by TLC
     sw = ctx.scratch.path("c07sweep.ndjson")
-    rc, out = ctx.run(b, [sw, "sweep", tab])
+    ok, out = ctx.run_harness(b, [sw, "sweep", tab], sw)
+    if not ok:
+        return
     m = re.search(r"SWEEP inputs=(\d+) rejected=(\d+)", out)
-    if rc != 0 or not m:
+    if not m:
         raise vlib.Infra("c07 sweep failed: " + out[-2000:])
     ctx.sweep_inputs += int(m.group(1))
     ctx.extra["sweep_inputs"] = int(m.group(1))
